@@ -64,6 +64,9 @@ def run(prog, rep):
 _CONVERSIONS = {"numpy.asarray", "numpy.array", "numpy.asanyarray", "numpy.asarray_chkfinite"}
 
 
+_FLOATS = ("builtins.float", "float", "numpy.float64", "numpy.double")
+
+
 def _is_given(t, given):
     """given itself, or given under a conversion that keeps values and shape (np.asarray(given), ...), on every alternative"""
     from vstat.terms import top_alts
@@ -71,7 +74,8 @@ def _is_given(t, given):
         if a == given:
             continue
         if a[0] == "call" and a[1][0] in ("func", "global") and a[1][1] in _CONVERSIONS and len(a[2]) >= 1 and _is_given(a[2][0], given) \
-                and all(k == "dtype" and v[0] in ("func", "global") and v[1] in ("builtins.float", "float", "numpy.float64") for k, v in a[3]) and len(a[2]) == 1:
+                and all(k == "dtype" and v[0] in ("func", "global") and v[1] in _FLOATS for k, v in a[3]) \
+                and (len(a[2]) == 1 or len(a[2]) == 2 and not a[3] and a[2][1][0] in ("func", "global") and a[2][1][1] in _FLOATS):
             continue
         return False
     return True
@@ -162,9 +166,10 @@ def values(prog, rep):
                 for _l0, alt in top_alts(t):
                     if alt[0] == "call" and alt[1][0] == "sub" and alt[1][1] == CP and len(alt[2]) == 1:
                         for lits, a in top_alts(alt[2][0]):
-                            if a == given and not any(_says_scalar(l, given) for l in tuple(pcs.of(st)) + tuple(lits)):
-                                bare.append(st)
-                            if a != given and a[0] == "call" and not any(k == "dtype" for k, _v in a[3]):
+                            if a == given:
+                                # known to be a scalar: arithmetic exists, but a numpy integer scalar (a value of an integer grid) still is one
+                                (intconv if any(_says_scalar(l, given) for l in tuple(pcs.of(st)) + tuple(lits)) else bare).append(st)
+                            if a != given and a[0] == "call" and len(a[2]) < 2 and not any(k == "dtype" for k, _v in a[3]):
                                 intconv.append(st)
         rep.check(not bare, "C08.values", f"{q}:dependent:array-like", fn.where(bare[0]) if bare else fn.where(dep),
                   "a non-scalar given reaches the dependence functions as np.asarray(given)",
@@ -173,7 +178,9 @@ def values(prog, rep):
         rep.check(not intconv, "C08.values", f"{q}:dependent:float", fn.where(intconv[0]) if intconv else fn.where(dep),
                   "the conditioning values are converted to float",
                   "np.asarray(given) keeps an integer dtype: cd.pdf([1.5, 2.0, 3.0], [1, 2, 4]) with sigma(x) = a + b * x ** -2 raises 'Integers to negative integer powers are not "
-                  "allowed' (model.pdf([[1, 2], [2, 3]]) too) while the pairs one at a time and given=[1., 2., 4.] work; convert with dtype=float")
+                  "allowed' (model.pdf([[1, 2], [2, 3]]) too) while the pairs one at a time and given=[1., 2., 4.] work; a scalar given left as it is has the same "
+                  "defect for a numpy integer (HighestDensityContour(model, alpha, limits=[(1, 31), (1, 41)], deltas=1) hands the values of an integer np.arange "
+                  "grid one at a time and raised, the same grid in floats works); convert every given with dtype=float")
     if fix is None:
         rep.fail("C08.values", f"{q}:fixed", fn.where(), "no store of a fixed value found")
     rep.check(fresh, "C08.values", f"{q}:result", fn.where(ret[-1]), "returns the freshly built dict",
